@@ -44,7 +44,7 @@ def entropy_regularized_policy_iteration(
         A SimpleNamespace with the results of the algorithm.
     """
     tf = transition_matrix
-    rf = reward_matrix
+    rf = reward_matrix.to(tf.dtype)
     if policy_prior is None:
         policy_prior = torch.softmax(torch.ones((1, tf.shape[1]), dtype=tf.dtype), 1)
     if initial_policy is None:
